@@ -15,6 +15,12 @@ CHECKS = {
  "C03": dict(level="other",
    text="Chunk grammar and block codec under contract: SqpkAddData/DeleteData/TargetInfo/EOF chunk records (offsets x128, endianness, platform word), BlockHeader read/write, write_data_block_patch o read_data_block_patch = identity with 128-byte alignment (thorough). The directory-tree effect of ZiPatch::apply is not decided by this family.",
    note=_COMMON_NOTE, technique="Kani proof harnesses over derive-generated chunk parsers (all contents per shape)"),
+ "C04": dict(level="other",
+   text="BOUNDED STAND-IN ONLY, nothing proved: ZiPatch::create is read_dir recursion, fs::metadata and PathBuf comparison and its post-state is a directory tree, which no Verus/Kani contract reaches without a hand-written model of std::fs. The property's contract (apply(create(A,B)) on a copy of A = B's non-empty files; A and B untouched) is checked by executing the real create and apply on 12 pairs of temporary trees (unchanged / changed / added / removed files, depth 0..4, sizes around the 128-byte alignment and the 32000 marker, 300 KB). The block codec kernel underneath is decided under C03.",
+   note=_COMMON_NOTE + " Every unit of this property is labelled B (bounded enumeration by native execution).", technique="bounded enumeration of the function's contract by native execution of the real code (stand-in for a function outside the verifiers' reach)"),
+ "C08": dict(level="other",
+   text="BOUNDED STAND-IN ONLY, nothing proved: ConfigFile and EXL are BufRead::lines / split_once / parse / format! / HashMap<String,_> end to end (Verus has no str reasoning; CBMC times out on 3-8 symbolic bytes of this code, DESIGN.md section 2). The property's contract (write = canonical text, parse o write = id, write o parse = id on canonical files, set_value changes every occurrence and nothing else, has_key/has_category/contains agree with the content) is checked by executing the real functions on 30 generated configurations + FFXIV.cfg with every set_value, and on 90 generated lists + test.exl with comment rows.",
+   note=_COMMON_NOTE + " Every unit of this property is labelled B (bounded enumeration by native execution).", technique="bounded enumeration of the function's contract by native execution of the real code (stand-in for functions outside the verifiers' reach)"),
  "C05": dict(level="other",
    text="Cell decoding under contract: read_column for every column type at listed offsets, all row contents (big-endian integers, float bits, one-byte booleans and packed bits, strings bounded to 2 characters); read_row for single rows, sub-rows and unknown ids on values built in the harness; sheet records. Whole-file parses and archive lookup are not decided.",
    note=_COMMON_NOTE, technique="Kani proof harnesses over EXD::read_column / read_row (all contents per shape)"),
@@ -57,8 +63,6 @@ CHECKS = {
 }
 
 NOT_APPLICABLE = {
- "C04": "quantifies over pairs of directory trees; ZiPatch::create is read_dir recursion, fs::metadata and PathBuf comparison and its post-state is a directory tree - no Verus/Kani contract can express it without a hand-written model of std::fs (a different family). Its only reachable kernel (write_data_block_patch / read_data_block_patch inverse) is decided under C03.",
- "C08": "ConfigFile and EXL are BufRead::lines / str::split_once / parse / format! / HashMap<String,_> end to end: Verus has no str reasoning, CBMC times out on 3-8 symbolic bytes of String/format!/SipHash code (DESIGN.md section 2), and there is no numeric kernel to carve out.",
 }
 
 NOTES = ("See DESIGN.md. ./check exit codes: 0 every obligation of every unit discharged (KNOWN-FINDING lines are informational); 1 VIOLATION (replay file under replays/<id>/); "
